@@ -62,11 +62,11 @@ Section adv.
     STI s [] → st_now s ≤ tn → LR s D tc → due_D s D →
     ∃ D', LR (tick cfg tn s) D' tc ∧ due_D (tick cfg tn s) D'.
   Proof.
-    intros HT Hle [HH HW] HD.
+    intros HT Hle (HH & HW & HK) HD.
     set (hs := ef (st_now s) (t_holds tc)) in *.
     set (dropped := List.filter (λ h, negb (alive tn h)) hs).
     exists (D ++ (hkey <$> dropped)). split.
-    - split; [|by rewrite tick_waiters]. rewrite tick_locks, tick_now. unfold tick. cbn [st_sessions st_timers set].
+    - split; [|split; [by rewrite tick_waiters|eapply KI_frame; [exact HK|unfold tick; simpl; by rewrite gc_used|by rewrite tick_waiters]]]. rewrite tick_locks, tick_now. unfold tick. cbn [st_sessions st_timers set].
       rewrite gc_sessions, gc_timers.
       assert (ef tn (t_holds tc) = List.filter (alive tn) hs) as -> by (unfold hs; by rewrite <- (ef_ef (st_now s) tn)).
       eapply HR_change; [eapply (HR_doom _ _ _ _ _ (D ++ (hkey <$> dropped))); [exact HH|..]|..].
@@ -146,7 +146,7 @@ Section adv.
       split; try done.
       + simpl. rewrite rle_now. lia.
       + exists (Dminus (tm_name tm, tm_key tm) D1). rewrite Etc. split.
-        * eapply (LR_cleanup cfg (tm_name tm) (tm_key tm) s3); [exact HL3|exact Hnl3|simpl; by rewrite rle_locks|simpl; by rewrite rle_waiters|simpl; by rewrite rle_now|by right|].
+        * eapply (LR_cleanup cfg (tm_name tm) (tm_key tm) s3); [exact HL3|exact Hnl3|simpl; by rewrite rle_locks|simpl; by rewrite rle_waiters|simpl; by rewrite rle_now|simpl; by rewrite rle_used|by right|].
           right. simpl. by rewrite rle_timers, Etk.
         * intros n k [Hne HinD']%elem_of_Dminus. destruct (HD1 n k HinD') as (tm' & Htm' & Hdl').
           simpl. rewrite rle_timers, rle_now, En3.
@@ -222,14 +222,14 @@ Proof.
       - constructor.
       - constructor.
       - by intros x ?%elem_of_nil. }
-  destruct HA as [HLI [Hnt _] Hfrom (D & [HH HW] & HD) HX _ Hcs Hsort Hndc Honly].
+  destruct HA as [HLI [Hnt _] Hfrom (D & (HH & HW & HK) & HD) HX _ Hcs Hsort Hndc Honly].
   assert (D = []) as ->.
   { destruct D as [|[n k] D]; [done|]. destruct (HD n k) as (tm & Htm & Hdl); [left|].
     assert (target < due_time (DTimer (tkey n k) tm)); [|simpl in *; lia].
     apply (next_due_nil _ _ _ Hnd). apply all_items_timer. done. }
   set (tf := tcur cfg i t o) in *.
-  pose proof (t_completions_transfer cfg i None o t Hsort Hndc ltac:(intros c Hc; by apply Hcs)) as (En & Ep & _ & Ew & Hp & Hf).
-  fold tf in En, Ep, Ew, Hp, Hf.
+  pose proof (t_completions_transfer cfg i None o t Hsort Hndc ltac:(intros c Hc; by apply Hcs)) as (En & Ep & _ & Es & Ek & Ew & Hp & Hf).
+  fold tf in En, Ep, Es, Ek, Ew, Hp, Hf.
   simpl. rewrite (tr_now _ _ _ _ HT). fold target.
   rewrite flag_true.
   2:{ apply forallb_forall. intros x Hx%elem_of_list_In. destruct (Honly x Hx) as (w & a & r & ->).
@@ -258,5 +258,6 @@ Proof.
     + done.
     + by intros n k ?%elem_of_nil.
   - rewrite gc_waiters, Ew. exact HW.
+  - destruct HK as (K1 & K2 & K3). unfold KI. simpl. rewrite gc_used, gc_waiters, Es, Ek. done.
   - intros j tag Hj. by apply HX, Hf.
 Qed.
